@@ -458,7 +458,7 @@ func (e *Exec) index(x, idxv value) value {
 		if i < 0 || i >= int64(len(x.B)) {
 			panic(goPanic{fmt.Sprintf("runtime error: index out of range [%d] with length %d", i, len(x.B))})
 		}
-		return x.B[i]
+		return x.B[i].deref()
 	}
 	panic(inconclusive{fmt.Sprintf("Index on %T", x)})
 }
